@@ -74,6 +74,27 @@ func (i *insertOnUpdateExecutor) ExecContext(ctx context.Context, f exec.Callbac
 		return nil, err
 	}
 
+	if stmt := i.parserCtx.InsertStmt; stmt != nil && stmt.IsReplace && len(beforeImage.Rows) > 0 {
+		// REPLACE deletes every row it collides with, through the primary key or through any unique index
+		// (which may be a row with ANOTHER key), and inserts its own rows: a DELETE item for the rows that
+		// were there, then an INSERT item for the rows now stored under the statement's keys. The undo takes
+		// them in reverse: the new rows go, the old rows come back. (Pairing the images up as an UPDATE
+		// loses a row deleted under another key, and its row-by-row undo trips over the unique index when
+		// the statement has moved a unique value from one row to another.)
+		metaData, err := datasource.GetTableCache(types.DBTypeMySQL).GetTableMeta(ctx, i.execContext.DBName, beforeImage.TableName)
+		if err == nil && metaData != nil {
+			// the rows that were deleted are written rows too
+			i.execContext.TxCtx.LockKeys[i.buildLockKey(beforeImage, *metaData)] = struct{}{}
+		}
+		beforeImage.SQLType = types.SQLTypeDelete
+		i.execContext.TxCtx.RoundImages.AppendBeofreImage(beforeImage)
+		i.execContext.TxCtx.RoundImages.AppendAfterImage(&types.RecordImage{TableName: beforeImage.TableName, TableMeta: beforeImage.TableMeta, SQLType: types.SQLTypeDelete})
+		afterImage.SQLType = types.SQLTypeInsert
+		i.execContext.TxCtx.RoundImages.AppendBeofreImage(&types.RecordImage{TableName: afterImage.TableName, TableMeta: afterImage.TableMeta, SQLType: types.SQLTypeInsert})
+		i.execContext.TxCtx.RoundImages.AppendAfterImage(afterImage)
+		return res, nil
+	}
+
 	if len(beforeImage.Rows) > 0 && len(afterImage.Rows) > len(beforeImage.Rows) {
 		// some rows of the batch existed and some were inserted: the undo of an UPDATE would put the old
 		// rows back and leave the new ones in the table, so the new rows get an INSERT item of their own
